@@ -258,9 +258,16 @@ func NewSingleHostReverseProxy(target *url.URL, without string, keepalive int, t
 	}
 
 	if target.Scheme == "unix" {
-		rp.Transport = &http.Transport{
+		transport := &http.Transport{
 			Dial: socketDial(target.String(), timeout),
 		}
+		// `keepalive` means the same for a socket as for a TCP backend
+		if keepalive == 0 {
+			transport.DisableKeepAlives = true
+		} else {
+			transport.MaxIdleConnsPerHost = keepalive
+		}
+		rp.Transport = transport
 	} else if target.Scheme == "quic" {
 		rp.Transport = &http3.RoundTripper{
 			QUICConfig: &quic.Config{
